@@ -128,8 +128,12 @@ def is_call(t, callee=None):
 
 
 def const_val(t):
-    if isinstance(t, tuple) and t[0] == 'const':
+    """value of a constant term; closed integer arithmetic over constants (`K - 1`, `1 << 16`, `6 as u32`) counts as a constant"""
+    if isinstance(t, tuple) and t and t[0] == 'const':
         return t[1]
+    if isinstance(t, tuple) and t and t[0] in ('bin', 'cast') and not any(
+            isinstance(x, tuple) and x and x[0] not in ('bin', 'cast', 'const') for x in walk(t) if isinstance(x, tuple) and x):
+        return const_fold(t)
     return None
 
 
@@ -449,6 +453,59 @@ def facts_at(body, bb):
     out = []
     for cond, vals, a in guards(body, bb):
         out += holds_both(cond, bool_outcome(body, a, vals))
+    return out
+
+
+def root_local(body, op):
+    """follow plain copies back to the user local an operand denotes"""
+    r = res(body)
+    l = op['p']['l'] if op['k'] in ('copy', 'move') and not op['p']['p'] else None
+    seen = set()
+    while l is not None and l not in seen:
+        seen.add(l)
+        ds = r.defs.get(l, [])
+        if len(ds) == 1 and ds[0][1] == 'rv' and ds[0][2]['k'] == 'use' and ds[0][2]['op']['k'] in ('copy', 'move') \
+                and not ds[0][2]['op']['p']['p'] and not ds[0][0]:
+            l = ds[0][2]['op']['p']['l']
+        else:
+            break
+    return l
+
+
+def local_defs(body, l):
+    """[(term, bb)] whole definitions of local l"""
+    r = res(body)
+    out = []
+    for proj, kind, pl, bb in r.defs.get(l, []):
+        if proj:
+            continue
+        t = r.rvalue(pl, (l,), bb) if kind == 'rv' else r.call_term(pl, (l,), bb)
+        out.append((t, bb))
+    return out
+
+
+def deep_facts(body, bb, _depth=3):
+    """facts_at, seen through materialised booleans: for `let ok = a >= 0 && a < w; if ok { .. }` the switch tests a local whose
+    definitions are `false` (on the a < 0 side) and `a < w` (on the a >= 0 side); ok == true can only come from the second one,
+    so `a < w` holds and so does everything that guards that definition (a >= 0).  Dually for `||` and the false edge."""
+    out = []
+    for cond, vals, a in guards(body, bb):
+        truth = bool_outcome(body, a, vals)
+        out += holds_both(cond, truth)
+        if truth is None or _depth == 0:
+            continue
+        l = root_local(body, body.blocks[a]['term']['discr'])
+        if l is None:
+            continue
+        defs = [(t, b_) for t, b_ in local_defs(body, l) if b_ in body.cfg.reach]
+        if len(defs) < 2:
+            continue
+        live = [(t, b_) for t, b_ in defs if not (t[0] == 'const' and isinstance(t[1], (bool, int)) and bool(t[1]) == (not truth))]
+        if len(live) != 1:
+            continue
+        t, b_ = live[0]
+        out += holds_both(t, truth)
+        out += deep_facts(body, b_, _depth - 1)
     return out
 
 
